@@ -239,6 +239,19 @@ def P_running(ctx, server):
             if flow.last(p) == "insert" and "HashSet" in p and ci.get("args") and ir.ty_str(ci["args"][0]).endswith("RunningInfo"):
                 inserts.append((b, bb, t))
     ctx.floor(rule, "registrations", len(inserts), 1)
+    # lock discipline: the shared set is only ever taken with the blocking Mutex::lock; a try_lock (followed by unwrap, or by a silent skip) makes one user's request
+    # fail or lose its bookkeeping because another user's request holds the lock at that instant
+    tl = []
+    for b0 in server.all_bodies:
+        d0 = None
+        for bb0, t0, ci0 in b0.calls():
+            p0 = ir.callee_path(ci0) or ""
+            if flow.last(p0) == "try_lock" and "Mutex" in p0:
+                d0 = d0 or flow.Defs(b0)
+                e0 = d0.expr_call(t0, bb0)
+                if flow.find(e0, lambda n_: n_[0] == "field" and n_[2] == "currently_running"):
+                    tl.append(b0.where(t0.get("loc")))
+    ctx.ob(rule, "blocking-lock-only", not tl, expected="currently_running is taken with Mutex::lock only", found=tl[:3])
     for b, bb, t in inserts:
         fn = server.enclosing_fn(b)
         key = fn.qual if fn else b.qual
@@ -408,6 +421,11 @@ def F_pair_add(ctx, server):
             # parsing strategy arms: Naive -> Adf::from_parser, Hybrid -> BdAdf::from_parser + hybrid_step_opt(false)
             calls = [flow.fname(ir.callee_path(ci) or "") for _, t, ci in n.calls()]
             ctx.ob(rule, "add.parsing-arms", "Adf::from_parser" in calls and "Adf::hybrid_step_opt" in calls, where=n.where(), expected="Naive: Adf::from_parser; Hybrid: BdAdf::from_parser(..).hybrid_step_opt(false)", found=calls[:8])
+            # the stored ADF and the parse-only graph must show the submitted conditions, not the pre-grounded ones: hybrid_step_opt is called with `false`
+            nd = flow.Defs(n)
+            hargs = [nd.expr_call(t, bb_) for bb_, t, ci in n.calls() if flow.fname(ir.callee_path(ci) or "") == "Adf::hybrid_step_opt"]
+            okh = bool(hargs) and all(e_[0] == "call" and len(e_[3]) >= 2 and e_[3][1][0] == "const" and flow.const_val(e_[3][1]) is False for e_ in hargs)
+            ctx.ob(rule, "add.hybrid-without-pregrounding", okh, where=n.where(), expected="hybrid_step_opt(false)", found=[flow.show(e_)[:120] for e_ in hargs])
     ctx.ob(rule, "add.builder-closure", found, where=cor.where(), expected="closure building the stored pair", found=found, kind="anchor-lost")
 
 
